@@ -759,7 +759,15 @@ func (m *Machine) implementsPtr(t types.Type, it *types.Interface) bool {
 	ms := m.P.Prog.MethodSets.MethodSet(t)
 	for i := 0; i < it.NumMethods(); i++ {
 		f := it.Method(i)
-		if ms.Lookup(f.Pkg(), f.Name()) == nil {
+		sel := ms.Lookup(f.Pkg(), f.Name())
+		if sel == nil {
+			return false
+		}
+		// same signature (receiver excluded)
+		sf, ok1 := sel.Obj().Type().(*types.Signature)
+		wf, ok2 := f.Type().(*types.Signature)
+		if !ok1 || !ok2 || !types.Identical(types.NewSignatureType(nil, nil, nil, sf.Params(), sf.Results(), sf.Variadic()),
+			types.NewSignatureType(nil, nil, nil, wf.Params(), wf.Results(), wf.Variadic())) {
 			return false
 		}
 	}
